@@ -37,6 +37,9 @@ PRODUCED = []
 
 
 def make_msg(sender, seq, sysex):
+    if seq > 126:
+        # long runs: the sequence number does not fit one data byte
+        return mido.Message('sysex', data=[sender, seq % 128, 0x11, 0x22, 0x33, seq // 128])
     if sysex == 'rt':
         # a real-time message: its only attribute is time, which object-keeping ports (echo, multi) preserve
         return mido.Message('clock', time=sender * 100 + seq + 1)
@@ -55,6 +58,8 @@ def ident(m):
         return (m.channel, m.control)
     if m.type == 'sysex' and len(m.data) == 5 and tuple(m.data[2:]) == (0x11, 0x22, 0x33) and m.time == 0:
         return (m.data[0], m.data[1])
+    if m.type == 'sysex' and len(m.data) == 6 and tuple(m.data[2:5]) == (0x11, 0x22, 0x33) and m.time == 0:
+        return (m.data[0], m.data[1] + 128 * m.data[5])
     return None
 
 
@@ -324,6 +329,24 @@ def small_programs():
     return progs
 
 
+def window_shard(rec, shard):
+    """Quick-tier supplement: for two byte-wise programs every pair of preemptions at most 24 steps apart (a second
+    thread has to be stopped inside its own critical section shortly after the first one was)."""
+    which, k, n = shard
+    prog = [{'port': 'wire', 'senders': [1, 1], 'receivers': [{'mode': 'poll', 'quota': 2}], 'sysex': True},
+            {'port': 'ioport-shared', 'senders': [1, 1], 'receivers': [{'mode': 'poll', 'quota': 2}]}][which]
+    idx = 0
+    for first in (0, 1):
+        rec.execute({'prog': prog, 'sched': [], 'first': first})
+        steps = min(LAST['steps'], 140)          # both senders are done well before that; the rest is the receiver
+        for i in range(steps):
+            for j in range(i + 1, min(i + 25, steps + 20)):
+                for a, b in ((1, 1), (1, 2)):
+                    idx += 1
+                    if idx % n == k:
+                        do(rec, {'prog': prog, 'sched': [[i, a], [j, b]], 'first': first})
+
+
 def enum_shard(rec, shard):
     pi, depth, k, n = shard
     prog = small_programs()[pi]
@@ -393,5 +416,13 @@ def main(ctx):
     ctx.exhaustive = True
     ctx.extra['exhaustive_scope'] = (f'every schedule with at most {depth} preemption(s) and every starting thread of '
                                      f'{len(progs)} fixed small programs; larger programs / denser schedules sampled')
+    if ctx.tier == 'quick':
+        ctx.pmap('window_shard', [(w, k, 8) for w in (0, 1) for k in range(8)])
+    # volume: a long backlog through MultiPort / echo / wire in one go (non-preemptive schedule and one preemption)
+    for port in ('multi', 'echo', 'wire', 'pqueue'):
+        copies = 2 if port == 'multi' else 1
+        prog = {'port': port, 'senders': [300], 'receivers': [{'mode': 'poll', 'quota': 300 * copies}]}
+        for first, sched in ((0, []), (1, []), (0, [[2000, 1]])):
+            do(ctx, {'prog': prog, 'sched': sched, 'first': first})
     n = 160 if ctx.tier == 'quick' else 6000
     ctx.pmap('hyp_shard', [(k, n // 8) for k in range(8)])
